@@ -3,8 +3,9 @@
    of ocaml/vsacc.ml.inc extended with the harness line "W <tid> cvspur" (spurious condition-
    variable wake-up), which is the model step (tid, choice 1) with label cvwoke a=1.
    With a line "explore <seed> <runs> <window>" instead of TRACE the driver explores the MODEL and
-   prints schedules (as "sched list ..." thread lists) that park a sleeper between its check and
-   its sleep and run the waker in between. *)
+   prints schedules (spur-token + thread list of "sched list ...") that park a sleeper between its
+   check and its sleep and run the waker in between, and that let some would-block futex waits
+   return early (interrupted / spurious wake-up). *)
 let c04params = { mo_spin_tas = SeqCst; mo_spin_clear = SeqCst; mo_sync_cas = SeqCst; mo_sync_store = SeqCst;
                   mo_once_cas = SeqCst; mo_once_store = SeqCst; mo_once_load = SeqCst; mo_ref_cas = SeqCst }
 
@@ -19,7 +20,9 @@ let note_of text =
    failed spuriously is choice 1 *)
 let choice_of op _a b c =
   if op = "cvsig" then (if b >= 0 then b + 1 else 0)
-  else if op = "casw" && c = 2 then 1 else 0
+  else if op = "casw" && c = 2 then 1
+  else if op = "fwait" && (c = 2 || c = 3) then c     (* interrupted / spurious futex return *)
+  else 0
 
 let rec upto n = if n <= 0 then [] else upto (n - 1) @ [n - 1]
 
@@ -176,6 +179,10 @@ let explore (Pk (step, st0, n, _, is_done, _, cls)) seed runs window =
   Random.init seed;
   for _r = 1 to runs do
     let st = ref st0 and sched = ref [] and k = ref 0 and parked = ref (-1) and left = ref 0 in
+    let fcount = ref 0 and ftok = ref [] in
+    (* one run in three does not park anybody, so that sleepers do reach futex waits that would
+       block -- those are the waits that can be made to return early *)
+    let nopark = Random.int 3 = 0 in
     let enabled s t = step s (nat_of_int t) O <> None in
     let stop = ref false in
     while not !stop && !k < 3000 do
@@ -183,7 +190,7 @@ let explore (Pk (step, st0, n, _, is_done, _, cls)) seed runs window =
       let en = List.filter (enabled !st) (upto n) in
       if en = [] then stop := true else begin
         (* look for a thread to park *)
-        if !parked < 0 then begin
+        if !parked < 0 && not nopark then begin
           let cands = List.filter (fun t -> let c = cls !st t in c = "rwait" || c = "rchk") en in
           if cands <> [] && Random.int 3 > 0 then (parked := List.nth cands (Random.int (List.length cands)); left := window)
         end;
@@ -200,11 +207,23 @@ let explore (Pk (step, st0, n, _, is_done, _, cls)) seed runs window =
         (* the harness prints a thread's last "P" and its "X" under ONE scheduling decision *)
         (match step !st (nat_of_int t) O with
          | Some (s', LExit) -> st := s'
+         | Some (s', LEv e) when e.e_op = OFwait && int_of_z e.e_c = 1 ->
+           (* a futex wait that would block: sometimes let it return early instead (interrupted =
+              "f<k>", spurious wake-up = "w<k>", k = index among the would-block waits) *)
+           let k = !fcount in
+           incr fcount;
+           let alt = if (if nopark then Random.int 3 > 0 else Random.int 3 = 0) then (if Random.bool () then 2 else 3) else 0 in
+           (match (if alt = 0 then None else step !st (nat_of_int t) (nat_of_int alt)) with
+            | Some (s2, LEv e2) when e2.e_op = OFwait && int_of_z e2.e_c = alt ->
+              st := s2; sched := t :: !sched;
+              ftok := (Printf.sprintf "%s%d" (if alt = 2 then "f" else "w") k) :: !ftok
+            | _ -> st := s'; sched := t :: !sched)
          | Some (s', _) -> st := s'; sched := t :: !sched
          | None -> ())
       end
     done;
-    Printf.printf "modelsched %s\n" (String.concat " " (List.rev_map string_of_int !sched))
+    Printf.printf "modelsched %s %s\n" (if !ftok = [] then "-" else String.concat "," (List.rev !ftok))
+      (String.concat " " (List.rev_map string_of_int !sched))
   done
 
 let handle (lines : string list) : unit =
